@@ -6,6 +6,16 @@ Models: `Model/Schema/Parse.lean` is `parser/grammar.pest` as the PEG pest execu
 formatter on every run (canonical AST dump and formatted text of generated and damaged sources).
 
 Proved here, for all inputs:
+* `format_parses_back` — for every schema AST that is well formed (`ValidSchema`: identifiers and literals of the shape
+  the grammar matches, one-line comment texts, schema comments only together with schema docs, no type reference
+  whose first identifier starts with a parameterless type keyword) the formatted text parses, with the PEG of
+  `grammar.pest`, to exactly the same schema with every comment / doc line in canonical form and the imports in
+  the formatter's (stable, by name) order: same definitions in the same order with the same names, ids, types,
+  attributes, comments and doc comments. This covers structs, enums, newtypes, consts of all kinds, services with
+  functions in all three body forms, events, inline structs and enums, both fallbacks, file prelude, and the
+  formatter's complete blank-line state machine (shown to write blank runs only);
+* `struct_def_roundtrip`, `enum_def_roundtrip`, `service_def_roundtrip`, `const_def_roundtrip`,
+  `newtype_def_roundtrip`, `definition_roundtrip` — the same per definition, whatever follows it;
 * `type_roundtrip` — the text the formatter writes for a type is parsed back to that type, for every type the
   grammar can produce (`ValidType`: well-formed identifiers, no reference starting with a parameterless
   type keyword, which the PEG would commit to) and whatever may follow a type;
@@ -14,13 +24,55 @@ Proved here, for all inputs:
 * `comment_line_roundtrip`, `doc_line_roundtrip`, `inline_doc_line_roundtrip` — a written comment / doc line is
   read back as one line of the same kind (never as another kind), and `line_inner_stable`: its inner text is
   the one that was written, so writing it again gives the same line (idempotence of line formatting).
-The round trip of whole definitions and of the blank-line state machine is tied by the correspondence runs and
-the implementation-only oracles (formatted text parses, to the same schema, idempotent, same diagnostics).
+Not theorems (tied by the correspondence runs and the implementation-only oracles): that every AST the parser
+produces is `ValidSchema`; that the fuel `parseSchema` uses (input length + 2) is at least `schemaFuel`; the
+validator (equal errors and warnings).
 -/
 import Aldrin.Lemmas.Schema.Types
 import Aldrin.Lemmas.Schema.Lines
+import Aldrin.Lemmas.Schema.Schema
+import Aldrin.Lemmas.Schema.ValidSound
 
 namespace Aldrin.Schema
+
+/-- Formatting a (well-formed) schema yields text that parses, without syntax error, to the same schema: lines
+in canonical form, imports in the formatter's order, everything else identical. -/
+theorem format_parses_back (s : Schema) (hv : ValidSchema s) (fuel : Nat) (hf : schemaFuel s ≤ fuel) :
+    fileP fuel (format s) = some (canonSchema s) :=
+  fileP_format s hv fuel hf
+
+/-- The same with the executable well-formedness check (`Model/Schema/Valid.lean`), which the driver evaluates on
+every AST the model parser produces in the correspondence runs. -/
+theorem format_parses_back_checked (s : Schema) (hv : validSchemaB s = true) (fuel : Nat) (hf : schemaFuel s ≤ fuel) :
+    fileP fuel (format s) = some (canonSchema s) :=
+  fileP_format s (validSchemaB_sound hv) fuel hf
+
+theorem definition_roundtrip (d : Definition) (hv : ValidDef d) (fuel : Nat) (hf : defFuel d ≤ fuel) (txt : Str)
+    (ht : DefTexts d txt) (w rest : Str) (hw : Blank w) : defP fuel (skipWs (w ++ (txt ++ rest))) = some (canonDef d, rest) :=
+  defP_text d hv fuel hf txt ht w rest hw
+
+/-- Whatever the formatter state, a definition is written as a blank run, one of its texts and a line end. -/
+theorem definition_written (d : Definition) : Emits (definitionF d) (DefTexts d) := emits_definitionF d
+
+theorem struct_def_roundtrip (d : StructDef) (hv : ValidStruct d) (fuel : Nat) (hf : structFuel d ≤ fuel) (t : Str)
+    (ht : StructTexts d t) (w rest : Str) (hw : Blank w) :
+    structDefP fuel (skipWs (w ++ (t ++ rest))) = some (canonStruct d, rest) := structDefP_text d hv fuel hf t ht w rest hw
+
+theorem enum_def_roundtrip (d : EnumDef) (hv : ValidEnum d) (fuel : Nat) (hf : enumFuel d ≤ fuel) (t : Str)
+    (ht : EnumTexts d t) (w rest : Str) (hw : Blank w) :
+    enumDefP fuel (skipWs (w ++ (t ++ rest))) = some (canonEnum d, rest) := enumDefP_text d hv fuel hf t ht w rest hw
+
+theorem service_def_roundtrip (d : ServiceDef) (hv : ValidService d) (fuel : Nat) (hf : serviceFuel d ≤ fuel) (t : Str)
+    (ht : ServiceTexts d t) (w rest : Str) (hw : Blank w) :
+    serviceDefP fuel (skipWs (w ++ (t ++ rest))) = some (canonService d, rest) := serviceDefP_text d hv fuel hf t ht w rest hw
+
+theorem const_def_roundtrip (d : ConstDef) (hv : ValidConst d) (fuel : Nat) (hf : d.comment.length + d.doc.length < fuel)
+    (w rest : Str) (hw : Blank w) : constDefP fuel (skipWs (w ++ (constText d ++ rest))) = some (canonConst d, rest) :=
+  constDefP_text d hv fuel hf w rest hw
+
+theorem newtype_def_roundtrip (d : NewtypeDef) (hv : ValidNewtype d) (fuel : Nat) (hf : newtypeFuel d ≤ fuel)
+    (w rest : Str) (hw : Blank w) : newtypeDefP fuel (skipWs (w ++ (newtypeText d ++ rest))) = some (canonNewtype d, rest) :=
+  newtypeDefP_text d hv fuel hf w rest hw
 
 /-- A type written by the formatter is read back as the same type. -/
 theorem type_roundtrip (t : TypeName) (ht : ValidType t) (fuel : Nat) (rest : Str) (hd : t.depth ≤ fuel)
@@ -78,5 +130,28 @@ example : typeText (.map (.prim .string) (.array (.option (.ref (.extern (chars!
 
 -- the PEG commits to `bool` in `boolean`: such a reference is not something the grammar produces
 example : typeNameP 5 (chars! "boolean;") = some (.prim .bool, chars! "ean;") := by decide
+
+-- a schema for which every premise of `format_parses_back` holds, with what it is formatted to
+def exSchema : Schema :=
+  { comment := [chars! "//c\n"], doc := [chars! "//!  d \n"],
+    imports := [{ comment := [], name := chars! "zeta" }, { comment := [chars! "//   about a\n"], name := chars! "alpha" }],
+    defs := [.newtype { comment := [], doc := [chars! "///x\n"], attrs := [{ name := chars! "a", options := [chars! "b", chars! "c"] }],
+                        name := chars! "N", target := .map (.prim .string) (.ref (.intern (chars! "Foo"))) },
+             .struct { comment := [], doc := [], attrs := [], name := chars! "S",
+                       fields := [{ comment := [chars! "//f\n"], doc := [], required := true, name := chars! "required", id := chars! "-1",
+                                    ty := .option (.prim .u8) }],
+                       fallback := some { comment := [], doc := [], name := chars! "rest" } }] }
+
+set_option maxRecDepth 8192 in
+example : format exSchema = chars! "// c\n\n//!  d\n\n//   about a\nimport alpha;\n\nimport zeta;\n\n/// x\n#[a(b, c)]\nnewtype N = map<string -> Foo>;\n\nstruct S {\n    // f\n    required required @ -1 = option<u8>;\n\n    rest = fallback;\n}\n" := by
+  decide
+
+set_option maxRecDepth 8192 in
+example : parseSchema (format exSchema) = some (canonSchema exSchema) := by decide
+
+theorem exSchema_valid : ValidSchema exSchema := validSchemaB_sound (by decide)
+
+set_option maxRecDepth 8192 in
+example : schemaFuel exSchema ≤ (format exSchema).length + 2 := by decide
 
 end Aldrin.Schema
